@@ -5,6 +5,9 @@ Import ListNotations.
 Open Scope string_scope.
 Open Scope list_scope.
 
+Lemma skypix_known (u : universe) s : In s (skypix_names u) -> In s (names_of u).
+Proof. unfold skypix_names. apply filtered_known. Qed.
+
 Lemma skypix_lookup_parts : forall k, k < 4 -> skypix_lookup_okb u_current (sky_part k) cl_current = true.
 Proof.
   intros k Hk. destruct k as [|[|[|[|k]]]].
@@ -26,6 +29,6 @@ Proof.
   destruct (sky_parts s Hs) as [k [Hk Hin]]. specialize (Hparts k Hk).
   unfold skypix_lookup_okb in Hparts. rewrite forallb_forall in Hparts. specialize (Hparts s Hin).
   rewrite forallb_forall in Hparts. specialize (Hparts C HC').
-  rewrite (mkgroup_cons_closure u_current s S C current_wf_p (filtered_known is_skypix u_current s Hs) HC).
+  rewrite (mkgroup_cons_closure u_current s S C current_wf_p (skypix_known u_current s Hs) HC).
   unfold group_okb in Hparts. destruct (mkgroup u_current (s :: C)) as [g| |]; try discriminate. eauto.
 Qed.
